@@ -139,22 +139,27 @@ func boundaryProp(c boundaryCase) common.Result {
 	verifier := ms[c.N-1]
 	signers := ms[:c.K]
 	var err error
+	var quirk func() bool // is a rejection the known false negative of the pairing library?
 	switch c.Kind {
 	case "qc":
-		b := hotstuff.NewBlock(hotstuff.GetGenesis().Hash(), kit.GenesisQC(), &clientpb.Batch{}, 1, 1)
+		b := kit.NewBlock(hotstuff.GetGenesis().Hash(), kit.GenesisQC(), &clientpb.Batch{}, 1, 1)
 		kit.StoreAll(ms, b)
 		sig, cerr := kit.CombineAny(c.Scheme, verifier.Base, kit.SignEach(signers, b.ToBytes()))
 		if cerr != nil {
 			return common.Fail("harness", "combine: %v", cerr)
 		}
-		err = verifier.Auth.VerifyQuorumCert(hotstuff.NewQuorumCert(sig, b.View(), b.Hash()))
+		qc := hotstuff.NewQuorumCert(sig, b.View(), b.Hash())
+		err = verifier.Auth.VerifyQuorumCert(qc)
+		quirk = func() bool { return kit.QuirkQC(verifier, qc) }
 	case "tc":
 		v := hotstuff.View(5)
 		sig, cerr := kit.CombineAny(c.Scheme, verifier.Base, kit.SignEach(signers, v.ToBytes()))
 		if cerr != nil {
 			return common.Fail("harness", "combine: %v", cerr)
 		}
-		err = verifier.Auth.VerifyTimeoutCert(hotstuff.NewTimeoutCert(sig, v))
+		tc := hotstuff.NewTimeoutCert(sig, v)
+		err = verifier.Auth.VerifyTimeoutCert(tc)
+		quirk = func() bool { return kit.QuirkTC(verifier, tc) }
 	case "aggqc":
 		v := hotstuff.View(5)
 		qcs := map[hotstuff.ID]hotstuff.QuorumCert{}
@@ -172,9 +177,14 @@ func boundaryProp(c boundaryCase) common.Result {
 		if cerr != nil {
 			return common.Fail("harness", "combine: %v", cerr)
 		}
-		_, err = verifier.Auth.VerifyAggregateQC(hotstuff.NewAggregateQC(qcs, sig, v))
+		agg := hotstuff.NewAggregateQC(qcs, sig, v)
+		_, err = verifier.Auth.VerifyAggregateQC(agg)
+		quirk = func() bool { return kit.QuirkAgg(verifier, agg) }
 	}
 	accepted := err == nil
+	if !accepted && c.K >= q && c.Scheme == "bls12" && quirk != nil && quirk() {
+		return common.Fail(kit.KnownBLS, "%s n=%d: %s with %d distinct valid signatures is rejected (%v) although the signature satisfies the verification equation in other arrangements", c.Scheme, c.N, c.Kind, c.K, err)
+	}
 	if accepted != (c.K >= q) {
 		return common.Fail("threshold:"+c.Kind, "%s n=%d q=%d: %s with %d distinct valid signatures: accepted=%v (err=%v)", c.Scheme, c.N, q, c.Kind, c.K, accepted, err)
 	}
